@@ -289,7 +289,7 @@ Section Paused.
 End Paused.
 
 (* ==== Part B: a resumed trial's checkpoint was never deleted ======================= *)
-Definition is_res (e : event) : bool := match e with EResume _ => true | _ => false end.
+Definition is_res (e : event) : bool := match e with EResume _ | ECopy _ _ => true | _ => false end.
 Definition nores (l : list event) : Prop := forall e, In e l -> is_res e = false.
 Lemma nores_nil : nores []. Proof. intros e []. Qed.
 Lemma nores_cons e l : is_res e = false -> nores l -> nores (e :: l).
@@ -303,7 +303,7 @@ Definition dset (D : list Z) (l : list event) : list Z := fold_left dstep l D.
 Fixpoint rs_from (D : list Z) (l : list event) : Prop :=
   match l with
   | [] => True
-  | e :: r => match e with EResume i => ~ In i D | _ => True end /\ rs_from (dstep D e) r
+  | e :: r => match e with EResume i => ~ In i D | ECopy j _ => ~ In j D | _ => True end /\ rs_from (dstep D e) r
   end.
 
 Lemma dset_app D a b : dset D (a ++ b) = dset (dset D a) b.
@@ -331,7 +331,7 @@ Qed.
 Lemma rs_from_nores l : forall D, nores l -> rs_from D l.
 Proof.
   induction l as [|e l IH]; intros D H; simpl; [exact I|]. split.
-  - assert (is_res e = false) by (apply H; now left). destruct e; try exact I. discriminate.
+  - assert (is_res e = false) by (apply H; now left). destruct e; try exact I; discriminate.
   - apply IH. intros x Hx. apply H. now right.
 Qed.
 
@@ -341,6 +341,16 @@ Proof.
   induction pre as [|e pre IH]; intros D l i post H ->; simpl in H.
   - split; [exact (proj1 H) | intros w []].
   - destruct H as [_ H]. destruct (IH _ _ _ _ H eq_refl) as [H1 H2]. split.
+    + intro Hin. apply H1. destruct e; simpl; auto.
+    + intros w [Hw|Hw]; [|exact (H2 w Hw)]. subst e. simpl in H1. apply H1. now left.
+Qed.
+
+Lemma rs_from_spec_copy pre : forall D l j t post, rs_from D l -> l = pre ++ ECopy j t :: post ->
+  ~ In j D /\ forall w, ~ In (EDelete j w) pre.
+Proof.
+  induction pre as [|e pre IH]; intros D l j t post H ->; simpl in H.
+  - split; [exact (proj1 H) | intros w []].
+  - destruct H as [_ H]. destruct (IH _ _ _ _ _ H eq_refl) as [H1 H2]. split.
     + intro Hin. apply H1. destruct e; simpl; auto.
     + intros w [Hw|Hw]; [|exact (H2 w Hw)]. subst e. simpl in H1. apply H1. now left.
 Qed.
@@ -398,7 +408,8 @@ Section ResumeSafe.
   Hypothesis H_sug : forall n s g s' sg, sinv n s -> suggest sch s n g = (s', sg) ->
     match sg with
     | SNone => sinv n s' /\ incl (needed s') (needed s)
-    | SNew | SFrom _ => sinv (n + 1)%Z s' /\ incl (needed s') (n :: needed s)
+    | SNew => sinv (n + 1)%Z s' /\ incl (needed s') (n :: needed s)
+    | SFrom j => sinv (n + 1)%Z s' /\ incl (needed s') (n :: needed s) /\ In j (needed s)
     | SResume i => sinv n s' /\ incl (needed s') (needed s) /\ In i (needed s)
     end.
   Hypothesis H_rem : forall n s s' l, sinv n s -> removables sch s = (s', l) ->
@@ -492,11 +503,9 @@ Section ResumeSafe.
   Lemma b_start_ids b f : new_trial_id (fst (b_start b f)) = (new_trial_id b + 1)%Z.
   Proof. unfold b_start, new_trial_id; simpl. rewrite app_length. simpl. lia. Qed.
 
-  Lemma b_start_nores b f : nores (snd (b_start b f)).
-  Proof.
-    unfold b_start; simpl. apply nores_cons; [reflexivity|].
-    destruct f; [apply nores_cons; [reflexivity|apply nores_nil] | apply nores_nil].
-  Qed.
+  Lemma b_start_events b f : snd (b_start b f) =
+    EStart (new_trial_id b) f :: match f with Some j => [ECopy j (new_trial_id b)] | None => [] end.
+  Proof. reflexivity. Qed.
 
   Lemma b_resume_spec b i b' e : b_resume b i = Some (b', e) ->
     e = [EResume i] /\ new_trial_id b' = new_trial_id b /\ (0 <= i < new_trial_id b)%Z.
@@ -527,11 +536,12 @@ Section ResumeSafe.
       destruct HI as [HI1 [HI2 HI3]].
       assert (forall f b1 e evs, b_start b f = (b1, e) ->
                 (sinv (new_trial_id b + 1)%Z s1 /\ incl (needed s1) (new_trial_id b :: needed s)) ->
+                match f with Some j => In j (needed s) | None => True end ->
                 schedule sch s1 b1 (new_trial_id b :: run) gs = (s', b', run', ex, er, evs) ->
                 rs_from D (e ++ evs) /\ Inv D (new_trial_id b') s' /\ bounded (new_trial_id b') run') as K.
-      { intros f b1 e evs Eb [Hs1 Hinc] E1.
+      { intros f b1 e evs Eb [Hs1 Hinc] Hf E1.
         pose proof (b_start_ids b f) as Hid. rewrite Eb in Hid. simpl in Hid.
-        pose proof (b_start_nores b f) as Hne. rewrite Eb in Hne. simpl in Hne.
+        pose proof (b_start_events b f) as Hne. rewrite Eb in Hne. simpl in Hne.
         assert (Inv D (new_trial_id b1) s1) as HI'.
         { rewrite Hid. apply Inv_grow; auto. intros x Hx Hd'. apply Hinc in Hx. destruct Hx as [<-|Hx].
           - specialize (HI2 _ Hd'). lia.
@@ -539,15 +549,17 @@ Section ResumeSafe.
         assert (bounded (new_trial_id b1) (new_trial_id b :: run)) as Hr'.
         { rewrite Hid. intros x [<-|Hx]; [unfold new_trial_id; lia | specialize (Hr x Hx); lia]. }
         destruct (IH _ _ _ _ _ _ _ _ _ _ HI' Hr' E1) as [A [B [C Dd]]].
-        split; [|split; assumption]. rewrite rs_from_app. split; [now apply rs_from_nores|].
-        rewrite dset_nodel; [exact A|]. pose proof (b_start_nodel b f) as Hn. now rewrite Eb in Hn. }
+        split; [|split; assumption]. rewrite rs_from_app. split.
+        - rewrite Hne. destruct f as [j|]; simpl; [|tauto]. split; [exact I|]. split; [exact (HI3 j Hf)|exact I].
+        - rewrite dset_nodel; [exact A|]. pose proof (b_start_nodel b f) as Hn. now rewrite Eb in Hn. }
       destruct sg as [|j|i|].
       + destruct (b_start b None) as [b1 e] eqn:Eb.
         destruct (schedule sch s1 b1 (new_trial_id b :: run) gs) as [[[[[s2 b2] r2] ex2] er2] evs] eqn:E1.
-        injection E as <- <- <- <- <- <-. destruct (K None b1 e evs Eb Hs E1) as [A [B C]]. auto.
+        injection E as <- <- <- <- <- <-. destruct (K None b1 e evs Eb Hs I E1) as [A [B C]]. auto.
       + destruct (b_start b (Some j)) as [b1 e] eqn:Eb.
         destruct (schedule sch s1 b1 (new_trial_id b :: run) gs) as [[[[[s2 b2] r2] ex2] er2] evs] eqn:E1.
-        injection E as <- <- <- <- <- <-. destruct (K (Some j) b1 e evs Eb Hs E1) as [A [B C]]. auto.
+        injection E as <- <- <- <- <- <-. destruct Hs as [Hs1 [Hs2 Hs3]].
+        destruct (K (Some j) b1 e evs Eb (conj Hs1 Hs2) Hs3 E1) as [A [B C]]. auto.
       + destruct Hs as [Hs1 [Hinc Hin]].
         destruct (b_resume b i) as [[b1 e]|] eqn:Eb.
         * destruct (schedule sch s1 b1 (i :: run) gs) as [[[[[s2 b2] r2] ex2] er2] evs] eqn:E1.
@@ -647,6 +659,16 @@ Section ResumeSafe.
     { split; [|intros x []]. split; [exact H0|]. split; [intros x []|intros x _ []]. }
     exact (proj2 (rs_from_spec pre [] _ i post (run_safe its [] _ HI) E)).
   Qed.
+
+  Theorem copy_has_checkpoint : forall s0 its pre j t post, sinv 0%Z s0 ->
+    run sch c (init s0) its = pre ++ ECopy j t :: post ->
+    forall w, ~ In (EDelete j w) pre.
+  Proof.
+    intros s0 its pre j t post H0 E.
+    assert (InvT [] (init s0)) as HI.
+    { split; [|intros x []]. split; [exact H0|]. split; [intros x []|intros x _ []]. }
+    exact (proj2 (rs_from_spec_copy pre [] _ j t post (run_safe its [] _ HI) E)).
+  Qed.
 End ResumeSafe.
 
 (* ---- instance: promotion-type book-keeping ---------------------------------------- *)
@@ -702,7 +724,8 @@ Qed.
 Lemma promo_H_sug : forall n s g s' sg, promo_inv n s -> suggest promo_sched s n g = (s', sg) ->
   match sg with
   | SNone => promo_inv n s' /\ incl (promo_needed s') (promo_needed s)
-  | SNew | SFrom _ => promo_inv (n + 1)%Z s' /\ incl (promo_needed s') (n :: promo_needed s)
+  | SNew => promo_inv (n + 1)%Z s' /\ incl (promo_needed s') (n :: promo_needed s)
+  | SFrom j => promo_inv (n + 1)%Z s' /\ incl (promo_needed s') (n :: promo_needed s) /\ In j (promo_needed s)
   | SResume i => promo_inv n s' /\ incl (promo_needed s') (promo_needed s) /\ In i (promo_needed s)
   end.
 Proof.
@@ -734,6 +757,211 @@ Proof.
   split; [lia|]. intros x [].
 Qed.
 
+(* ---- instance: PBT after the fix (source re-drawn when stopped in the meantime) ------ *)
+Definition pbt_needed (s : pbt) : list Z :=
+  map pt_id (filter (fun t => negb (pt_stopped t)) (pb_trials s)).
+Definition pbt_inv (n : Z) (s : pbt) : Prop :=
+  (0 <= n)%Z /\ (forall i, In i (map pt_id (pb_trials s)) -> (0 <= i < n)%Z) /\ NoDup (map pt_id (pb_trials s)).
+
+Definition live (l : list pbt_trial) : list Z := map pt_id (filter (fun t => negb (pt_stopped t)) l).
+
+Lemma pbt_find_In l i t : pbt_find l i = Some t -> In t l /\ pt_id t = i.
+Proof.
+  induction l as [|x l IH]; simpl; [discriminate|].
+  destruct (Z.eqb (pt_id x) i) eqn:E.
+  - intros H; injection H as <-. split; [now left | now apply Z.eqb_eq].
+  - intros H. destruct (IH H). split; [now right | assumption].
+Qed.
+
+Lemma pbt_update_ids l i f : (forall t, pt_id (f t) = pt_id t) ->
+  map pt_id (pbt_update l i f) = map pt_id l.
+Proof.
+  intros Hf. induction l as [|x l IH]; simpl; [reflexivity|].
+  destruct (Z.eqb (pt_id x) i); simpl; [now rewrite Hf | now rewrite IH].
+Qed.
+
+Lemma pbt_update_live l i f : (forall t, pt_id (f t) = pt_id t) ->
+  (forall t, pt_stopped t = true -> pt_stopped (f t) = true) ->
+  incl (live (pbt_update l i f)) (live l).
+Proof.
+  intros Hid Hf. unfold live. induction l as [|x l IH]; simpl; [apply incl_refl|].
+  destruct (Z.eqb (pt_id x) i).
+  - simpl. destruct (pt_stopped (f x)) eqn:E1; destruct (pt_stopped x) eqn:E2; simpl.
+    + apply incl_refl.
+    + apply incl_tl, incl_refl.
+    + rewrite (Hf x E2) in E1. discriminate.
+    + rewrite Hid. apply incl_refl.
+  - simpl. destruct (pt_stopped x); simpl; [exact IH|].
+    intros y [<-|Hy]; [now left | right; now apply IH].
+Qed.
+
+Lemma live_sub_ids l : incl (live l) (map pt_id l).
+Proof.
+  unfold live. induction l as [|x l IH]; simpl; [apply incl_refl|].
+  destruct (pt_stopped x); simpl; [apply incl_tl, IH|].
+  intros y [<-|Hy]; [now left | right; now apply IH].
+Qed.
+
+Lemma pbt_update_stop_dead l i f : (forall t, pt_id (f t) = pt_id t) ->
+  (forall t, pt_stopped (f t) = true) -> NoDup (map pt_id l) ->
+  ~ In i (live (pbt_update l i f)).
+Proof.
+  intros Hid Hf. induction l as [|x l IH]; simpl; intros Hnd; [tauto|].
+  inversion Hnd as [|? ? Hx Hnd']; subst.
+  destruct (Z.eqb (pt_id x) i) eqn:E.
+  - apply Z.eqb_eq in E. unfold live. simpl. rewrite Hf. simpl.
+    intros Hin. apply Hx. rewrite E. now apply (live_sub_ids l).
+  - apply Z.eqb_neq in E. unfold live. simpl. destruct (pt_stopped x); simpl.
+    + now apply IH.
+    + intros [H|H]; [contradiction | now apply IH in H].
+Qed.
+
+Lemma skipn_In_sub {A} n (l : list A) x : In x (skipn n l) -> In x l.
+Proof. intros H. rewrite <- (firstn_skipn n l). apply in_or_app. now right. Qed.
+
+Lemma insert_by_In le x l y : In y (insert_by le x l) -> y = x \/ In y l.
+Proof.
+  induction l as [|z l IH]; simpl; [intros [<-|[]]; now left|].
+  destruct (le (snd z) (snd x)); simpl.
+  - intros [<-|H]; [right; now left|]. destruct (IH H); [now left | right; now right].
+  - intros [<-|H]; [now left | now right].
+Qed.
+
+Lemma stable_sort_In mx l y : In y (stable_sort mx l) -> In y l.
+Proof.
+  unfold stable_sort.
+  assert (forall le l acc, In y (fold_left (fun acc x => insert_by le x acc) l acc) -> In y acc \/ In y l) as K.
+  { intros le. induction l0 as [|x l0 IH]; intros acc; simpl; [auto|].
+    intros H. destruct (IH _ H) as [H1|H1]; [|right; now right].
+    destruct (insert_by_In _ _ _ _ H1) as [->|H2]; [right; now left | now left]. }
+  intros H. destruct (K _ _ _ H) as [[]|H1]. exact H1.
+Qed.
+
+Lemma scored_live l j sc : In (j, sc) (scored l) -> In j (live l).
+Proof.
+  unfold live. induction l as [|x l IH]; simpl; [tauto|].
+  destruct (pt_score x) as [s0|]; destruct (pt_stopped x); simpl; auto.
+  intros [H|H]; [injection H as <- _; now left | right; now apply IH].
+Qed.
+
+Lemma quantiles_upper_live qf l j : In j (snd (quantiles qf l)) -> In j (live l).
+Proof.
+  unfold quantiles.
+  set (trials := map fst (stable_sort false (scored l))).
+  assert (forall x, In x trials -> In x (live l)) as K.
+  { intros x Hx. apply in_map_iff in Hx as [[a sc] [<- Hx]]. simpl. apply stable_sort_In in Hx.
+    eapply scored_live; eauto. }
+  destruct (Nat.leb (length trials) 1); simpl; [tauto|].
+  match goal with |- context [if Nat.eqb ?n 0 then _ else _] => destruct (Nat.eqb n 0) end.
+  - apply K.
+  - intros H. apply K. eapply skipn_In_sub; eauto.
+Qed.
+
+Lemma pbt_inv_ids n s tr : pbt_inv n s -> map pt_id tr = map pt_id (pb_trials s) ->
+  forall st, pbt_inv n {| pb_trials := tr; pb_stack := st |}.
+Proof. intros [H0 [H1 H2]] E st. unfold pbt_inv. simpl. rewrite E. auto. Qed.
+
+Lemma pbt_H_res p : forall n s i r s' d cl, pbt_inv n s -> on_result (pbt_sched p) s i r = (s', d, cl) ->
+  pbt_inv n s' /\ incl (pbt_needed s') (pbt_needed s) /\ (d = STOP -> ~ In i (pbt_needed s')).
+Proof.
+  intros n s i [[cost score] choice] s' d cl Hinv E. simpl in E. unfold pbt_on_result in E.
+  destruct (pbt_find (pb_trials s) i) as [t|] eqn:Ef.
+  2:{ injection E as <- <- <-. split; [exact Hinv|]. split; [apply incl_refl|discriminate]. }
+  set (fstop := fun t0 : pbt_trial => {| pt_id := pt_id t0; pt_score := pt_score t0; pt_last := pt_last t0; pt_stopped := true |}) in *.
+  set (fsc := fun t0 : pbt_trial => {| pt_id := pt_id t0; pt_score := Some score; pt_last := cost; pt_stopped := pt_stopped t0 |}) in *.
+  assert (forall t0, pt_id (fstop t0) = pt_id t0) as Hid1 by reflexivity.
+  assert (forall t0, pt_id (fsc t0) = pt_id t0) as Hid2 by reflexivity.
+  pose proof Hinv as [H0 [H1 H2]].
+  destruct (Qleb (pp_max_t p) cost).
+  - injection E as <- <- <-. split; [|split].
+    + apply (pbt_inv_ids n s); [exact Hinv | now apply pbt_update_ids].
+    + apply (pbt_update_live (pb_trials s) i fstop Hid1). reflexivity.
+    + intros _. apply (pbt_update_stop_dead (pb_trials s) i fstop Hid1); [reflexivity|exact H2].
+  - destruct (Qltb (cost - pt_last t) (pp_interval p)).
+    + injection E as <- <- <-. split; [exact Hinv|]. split; [apply incl_refl|discriminate].
+    + set (tr1 := pbt_update (pb_trials s) i fsc) in *.
+      assert (map pt_id tr1 = map pt_id (pb_trials s)) as Eid by (now apply pbt_update_ids).
+      assert (incl (live tr1) (live (pb_trials s))) as Hl1
+        by (apply (pbt_update_live (pb_trials s) i fsc Hid2); intros t0 Ht; exact Ht).
+      destruct (quantiles (pp_qf p) tr1) as [lower upper].
+      destruct (mem_Z i lower).
+      * injection E as <- <- <-. split; [|split].
+        -- apply (pbt_inv_ids n s); [exact Hinv|]. rewrite pbt_update_ids; [exact Eid|exact Hid1].
+        -- eapply incl_tran; [|exact Hl1]. apply (pbt_update_live tr1 i fstop Hid1). reflexivity.
+        -- intros _. apply (pbt_update_stop_dead tr1 i fstop Hid1); [reflexivity|]. now rewrite Eid.
+      * injection E as <- <- <-. split; [|split].
+        -- apply (pbt_inv_ids n s); [exact Hinv | exact Eid].
+        -- exact Hl1.
+        -- discriminate.
+Qed.
+
+Lemma NoDup_snoc {A} (l : list A) a : NoDup l -> ~ In a l -> NoDup (l ++ [a]).
+Proof.
+  induction l as [|x l IH]; simpl; intros Hn Ha; [constructor; [tauto|constructor]|].
+  inversion Hn; subst. constructor.
+  - intros Hin. apply in_app_or in Hin as [Hin|[<-|[]]]; [contradiction|]. apply Ha. now left.
+  - apply IH; [assumption|]. intros Hin. apply Ha. now right.
+Qed.
+
+Lemma live_app l1 l2 : live (l1 ++ l2) = live l1 ++ live l2.
+Proof. unfold live. now rewrite filter_app, map_app. Qed.
+
+Lemma pbt_new n s st :
+  pbt_inv n s ->
+  let tr := pb_trials s ++ [{| pt_id := n; pt_score := None; pt_last := 0; pt_stopped := false |}] in
+  pbt_inv (n + 1)%Z {| pb_trials := tr; pb_stack := st |} /\
+  incl (pbt_needed {| pb_trials := tr; pb_stack := st |}) (n :: pbt_needed s).
+Proof.
+  intros [H0 [H1 H2]] tr. split.
+  - unfold pbt_inv. simpl. unfold tr. rewrite map_app. simpl. split; [lia|]. split.
+    + intros i Hi. apply in_app_or in Hi as [Hi|[<-|[]]]; [specialize (H1 i Hi)|]; lia.
+    + apply NoDup_snoc; [exact H2|]. intros Hn. specialize (H1 n Hn). lia.
+  - unfold pbt_needed. simpl. fold (live tr). unfold tr. rewrite live_app. simpl.
+    intros x Hx. apply in_app_or in Hx as [Hx|[<-|[]]]; [right; exact Hx | now left].
+Qed.
+
+Lemma pbt_H_sug p : forall n s g s' sg, pbt_inv n s -> suggest (pbt_sched p) s n g = (s', sg) ->
+  match sg with
+  | SNone => pbt_inv n s' /\ incl (pbt_needed s') (pbt_needed s)
+  | SNew => pbt_inv (n + 1)%Z s' /\ incl (pbt_needed s') (n :: pbt_needed s)
+  | SFrom j => pbt_inv (n + 1)%Z s' /\ incl (pbt_needed s') (n :: pbt_needed s) /\ In j (pbt_needed s)
+  | SResume i => pbt_inv n s' /\ incl (pbt_needed s') (pbt_needed s) /\ In i (pbt_needed s)
+  end.
+Proof.
+  intros n s g s' sg Hinv E. simpl in E. unfold pbt_suggest in E.
+  destruct (pb_stack s) as [|j st].
+  - injection E as <- <-. exact (pbt_new n s [] Hinv).
+  - simpl in E. destruct (pbt_stopped s j) eqn:Es.
+    + pose proof (quantiles_upper_live (pp_qf p) (pb_trials s)) as Hu.
+      destruct (snd (quantiles (pp_qf p) (pb_trials s))) as [|u upper].
+      * injection E as <- <-. exact (pbt_new n s st Hinv).
+      * injection E as <- <-. destruct (pbt_new n s st Hinv) as [A B]. split; [exact A|]. split; [exact B|].
+        apply Hu. match goal with |- In (if ?cnd then _ else _) _ => destruct cnd eqn:Em end; [|now left].
+        apply (mem_Z_In g (u :: upper)). exact Em.
+    + injection E as <- <-. destruct (pbt_new n s st Hinv) as [A B]. split; [exact A|]. split; [exact B|].
+      unfold pbt_stopped in Es. destruct (pbt_find (pb_trials s) j) as [t|] eqn:Ef; [|discriminate].
+      destruct (pbt_find_In _ _ _ Ef) as [Hin <-]. unfold pbt_needed. apply in_map.
+      apply filter_In. split; [exact Hin|]. now rewrite Es.
+Qed.
+
+Lemma pbt_H_rem p : forall n s s' l, pbt_inv n s -> removables (pbt_sched p) s = (s', l) ->
+  pbt_inv n s' /\ incl (pbt_needed s') (pbt_needed s) /\
+  forall i, In i l -> ~ In i (pbt_needed s') /\ (0 <= i < n)%Z.
+Proof.
+  intros n s s' l Hinv E. simpl in E. injection E as <- <-.
+  split; [exact Hinv|]. split; [apply incl_refl|]. intros i [].
+Qed.
+
+Theorem pbt_clone_source_alive : forall p c its pre j t post, speculative c = false ->
+  run (pbt_sched p) c (init pbt0) its = pre ++ ECopy j t :: post ->
+  forall w, ~ In (EDelete j w) pre.
+Proof.
+  intros p c its pre j t post Hs E.
+  apply (copy_has_checkpoint (pbt_sched p) c Hs pbt_needed pbt_inv (pbt_H_res p) (pbt_H_sug p) (pbt_H_rem p)
+           pbt0 its pre j t post); [|exact E].
+  split; [lia|]. split; [intros x []|constructor].
+Qed.
+
 (* ---- synchronous Hyperband: what is reported as removable is not promoted ---------- *)
 Lemma sync_removable_not_promoted mx b pos t m b' rem :
   bracket_on_result mx b pos t m = (b', Some rem) ->
@@ -753,10 +981,10 @@ Open Scope Q_scope.
 Definition wcfg := {| delete_checkpoints := true; remove_callback := false; speculative := false |}.
 Definition wprm := {| pp_max_t := 3; pp_interval := 1; pp_qf := 1 # 2 |}.
 (* two workers; one poll delivers 0@1 1@1 0@2 1@2 1@3 (score of trial 0 below trial 1) *)
-Definition wits : list (iter_in (Q * Q * Z) unit) :=
-  [ {| reports := []; completed := []; sugg := [tt; tt]; spec_choice := [] |};
+Definition wits : list (iter_in (Q * Q * Z) Z) :=
+  [ {| reports := []; completed := []; sugg := [0%Z; 0%Z]; spec_choice := [] |};
     {| reports := [(0%Z, (1, 1, 0%Z)); (1%Z, (1, 2, 0%Z)); (0%Z, (2, 1, 1%Z)); (1%Z, (2, 2, 0%Z)); (1%Z, (3, 2, 0%Z))];
-       completed := []; sugg := [tt; tt]; spec_choice := [] |} ].
+       completed := []; sugg := [0%Z; 0%Z]; spec_choice := [] |} ].
 Definition wpre : list event :=
   [EStart 0 None; EStart 1 None; EDecision 0 CONTINUE; EDecision 1 CONTINUE; EDecision 0 STOP; EClone 0 1;
    EStop 0; EDelete 0 WStop; EDecision 1 CONTINUE; EDecision 1 STOP; EStop 1; EDelete 1 WStop;
@@ -766,7 +994,7 @@ Definition wpost : list event :=
    EDelete 0 WStopAll; EDelete 1 WStopAll; EDelete 2 WStopAll; EDelete 3 WStopAll].
 
 Lemma pbt_clone_source_deleted_witness :
-  run (pbt_sched wprm) wcfg (init pbt0) wits = wpre ++ ECopy 1 2 :: wpost /\ deleted_in wpre 1 = true.
+  run (pbt_sched_unfixed wprm) wcfg (init pbt0) wits = wpre ++ ECopy 1 2 :: wpost /\ deleted_in wpre 1 = true.
 Proof. split; vm_compute; reflexivity. Qed.
 Close Scope Q_scope.
 
